@@ -132,7 +132,8 @@ func (w *world) prepare(i int, st WStep) (call func(in *Inst) error, post func()
 		}
 		fr := w.stack[len(w.stack)-1]
 		call = func(in *Inst) error {
-			if err := in.Acc().Undo(uint64(fr.b.Add), cloneProof(fr.proof), cloneHashes(fr.delH), cloneHashes(fr.roots)); err != nil {
+			in.ar.next()
+			if err := in.Acc().Undo(uint64(fr.b.Add), in.ar.proof(fr.proof), in.ar.hashes(fr.delH), in.ar.hashes(fr.roots)); err != nil {
 				return fmt.Errorf("step %d: %s: Undo of block {del %v, add %d} failed: %v", i, in.Cfg, fr.b.Del, fr.b.Add, err)
 			}
 			return nil
